@@ -13,6 +13,8 @@ import (
 	_ "crypto/sha256"
 	"crypto/sha512"
 	"fmt"
+	"os"
+	"strconv"
 	"strings"
 
 	"golang.org/x/crypto/sha3"
@@ -681,6 +683,72 @@ func optionStructs(r *mon.Run, c Case) {
 	}
 }
 
+// optionCombos: every combination of the boolean and length-valued option fields that the doc comments allow, in the
+// entry points that report option problems through an error or an invalid entry (signing, batch adds): none may panic.
+func optionCombos(r *mon.Run, c Case) {
+	exp, _ := ed25519.NewExpandedPublicKey(pub)
+	cv := cache.NewVerifier(cache.NewLRUCache(2))
+	h64 := make([]byte, 64)
+	run := func(name, what string, f func()) {
+		zzverifrt.Arm(5_000_000)
+		pan, msg := mon.Try(f)
+		zzverifrt.Arm(0)
+		r.Eval([]byte("combo|" + name + "|" + what))
+		r.Hist("option-combinations/" + name)
+		if pan {
+			r.Violate("untrusted/option-combination/"+name+"/panic", what+": "+msg, c)
+		}
+	}
+	for _, ctxLen := range []int{0, 1, 30, 31, 32, 63, 64, 65, 127, 128, 254, 255} {
+		for _, ph := range []bool{false, true} {
+			for _, added := range []bool{false, true} {
+				for _, selfv := range []bool{false, true} {
+					o := &ed25519.Options{Context: string(make([]byte, ctxLen)), AddedRandomness: added, SelfVerify: selfv}
+					m := msgM
+					if ph {
+						o.Hash, m = crypto.SHA512, h64
+					}
+					what := fmt.Sprintf("context length %d, pre-hash %v, AddedRandomness %v, SelfVerify %v", ctxLen, ph, added, selfv)
+					run("PrivateKey.Sign", what, func() {
+						sig, err := priv.Sign(nil, m, o)
+						if err == nil && !ed25519.VerifyWithOptions(pub, m, sig, &ed25519.Options{Context: o.Context, Hash: o.Hash}) {
+							panic("signature made with these options does not verify")
+						}
+					})
+				}
+			}
+		}
+	}
+	for fl := 0; fl < 32; fl++ {
+		f := ref.FlagsFromBits(fl)
+		vo := &ed25519.VerifyOptions{AllowSmallOrderA: f.SmallA, AllowSmallOrderR: f.SmallR, AllowNonCanonicalA: f.NonCanonA, AllowNonCanonicalR: f.NonCanonR, CofactorlessVerify: f.Cofactorless}
+		what := fmt.Sprintf("verification option set %02d", fl)
+		o := &ed25519.Options{Verify: vo}
+		run("BatchVerifier.AddWithOptions", what, func() {
+			bv := ed25519.NewBatchVerifier()
+			bv.AddWithOptions(pub, msgM, goodSig, o)
+			bv.Add(pub, msgM, goodSig)
+			bv.Verify(nil)
+		})
+		run("BatchVerifier.AddExpandedWithOptions", what, func() {
+			bv := ed25519.NewBatchVerifier()
+			bv.AddExpandedWithOptions(exp, msgM, goodSig, o)
+			bv.Verify(nil)
+		})
+		run("cache.Verifier.AddWithOptions", what, func() {
+			bv := ed25519.NewBatchVerifier()
+			cv.AddWithOptions(bv, pub, msgM, goodSig, o)
+			bv.Verify(nil)
+		})
+		run("PrivateKey.Sign(SelfVerify)", what, func() { priv.Sign(nil, msgM, &ed25519.Options{Verify: vo, SelfVerify: true}) })
+	}
+}
+
+var huge []byte
+
+// two32 = 2^32 where int has 64 bits (computed at run time: the constant would not compile for 32-bit targets)
+var two32 = func() int { one := 1; return one << 32 }()
+
 func main() {
 	r := mon.Start("C19", "table of ~70 byte-taking entry points (scalar/point/key/signature/proof decoders; Ed25519 single/expanded/batch/cached verification; signing-side option validation; ECVRF; X25519 and conversions; sr25519 decoders, verification and batch; h2c expanders and suites; Merlin operations; entropy readers) x lengths 0..nominal+40, 2*nominal, 128, 255..257, 1000 (+4 KiB, 70000, 1 MiB for message-like arguments) x contents {zeros, ff, valid prefix + junk, PRNG} + nil; receivers pre-loaded with a non-neutral value; per call: recover(), documented-panic table from the doc comments, wrong-length => failure, receiver neutral (where the code documents a reset) or unchanged, loop-tick budget 5e6 + 2e4/byte; non-trivial = (entry, length, fill); distinct = SHA-256 of it")
 	r.Workers = 1 // the loop-tick counter is process-global
@@ -697,6 +765,8 @@ func main() {
 			neutralKeys(r, c)
 		} else if c.Entry == "option structs" {
 			optionStructs(r, c)
+		} else if c.Entry == "option combinations" {
+			optionCombos(r, c)
 		}
 		r.Finish()
 		return
@@ -736,6 +806,33 @@ func main() {
 			runOne(r, en, Case{Entry: en.name, Len: nominal, Fill: fmt.Sprintf("bitflip:%d", 8*nominal-1)})
 		}
 		runOne(r, en, Case{Entry: en.name, Nil: true, Fill: "zeros"})
+		// lengths that only differ from the valid one above bit 31 (a length check done in 32 bits takes them for
+		// valid): 2^32 + nominal and 2^32, as untouched virtual memory, for the fixed-size decoders on 64-bit targets
+		if strconv.IntSize == 64 && len(en.valid) == 1 && !en.big && nominal <= 96 && !strings.Contains(en.name, "msg") && os.Getenv("VERIF_NO_HUGE") == "" {
+			if huge == nil {
+				huge = make([]byte, two32+128)
+			}
+			for _, l := range []int{two32 + nominal, two32} {
+				copy(huge, en.good())
+				b := huge[:l]
+				var success bool
+				zzverifrt.Arm(50_000_000)
+				pan, pmsg := mon.Try(func() { success, _ = en.call(b) })
+				zzverifrt.Arm(0)
+				r.Eval([]byte(fmt.Sprintf("%s|huge|%d", en.name, l)))
+				r.Hist("lengths-above-2^32")
+				docPanic := en.docPanic != nil && en.docPanic(b)
+				switch {
+				case pan && !docPanic:
+					r.Violate("untrusted/"+en.name+"/undocumented-panic", fmt.Sprintf("len=2^32+%d: %s", l-two32, pmsg), Case{Entry: en.name, Len: l, Fill: "valid-prefix+junk"})
+				case !pan && success:
+					r.Violate("untrusted/"+en.name+"/wrong-length-accepted", fmt.Sprintf("an input of 2^32+%d bytes (valid encoding followed by zeros) is reported as success", l-two32), Case{Entry: en.name, Len: l, Fill: "valid-prefix+junk"})
+				}
+			}
+			for i := 0; i < 128; i++ {
+				huge[i] = 0
+			}
+		}
 		// the valid example must succeed, otherwise the entry proves nothing
 		runOne(r, en, Case{Entry: en.name, Len: nominal, Fill: "valid-prefix+junk"})
 		if r.HistGet("success/"+en.name) == 0 {
@@ -744,6 +841,7 @@ func main() {
 	}
 	neutralKeys(r, Case{Entry: "neutral-state keys"})
 	optionStructs(r, Case{Entry: "option structs"})
+	optionCombos(r, Case{Entry: "option combinations"})
 	r.Sample("case", Case{Entry: tbl[0].name, Len: 31, Fill: "ff"})
 	r.Sample("case", Case{Entry: "sr25519.KeyPair.UnmarshalBinary", Len: 96, Fill: "valid-prefix+junk"})
 	r.Sample("case", Case{Entry: "merlin ops(label=b,msg=b,size=len b)", Len: 1 << 20, Fill: "random"})
